@@ -28,12 +28,13 @@ def locateTagM : FileM (Option (Loc × Bytes)) := do
         let data := endd - size
         let hasHdr := flags / hasHeaderFlag % 2 = 1
         if hasHdr ∧ data < 32 then raise .mutagen
+        else if size < 32 then raise .mutagen               -- size -= 32: "smaller than its footer"
         else do
           let header := if hasHdr then data - 32 else data
           fseek header
           let start ← fixBrokenM header header
           fseek data
-          let tag ← freadInt ((size : Int) - 32)
+          let tag ← fread (size - 32)
           pure (some ({ start := start, endd := endd, isAtStart := false }, tag))
   | .headerAtStart => do
     fseek 8
@@ -46,10 +47,12 @@ def locateTagM : FileM (Option (Loc × Bytes)) := do
       else do
         fseek (32 + size - 32)
         let hasFooter ← readIsApe
-        fseek 0
-        fseek 32
-        let tag ← freadInt (if hasFooter then (size : Int) - 32 else size)
-        pure (some ({ start := 0, endd := 32 + size, isAtStart := true }, tag))
+        if hasFooter ∧ size < 32 then raise .mutagen         -- size -= 32: "smaller than its footer"
+        else do
+          fseek 0
+          fseek 32
+          let tag ← fread (if hasFooter then size - 32 else size)
+          pure (some ({ start := 0, endd := 32 + size, isAtStart := true }, tag))
 
 def verifyRead : FileM Unit :=
   tryCatch (do let _ ← fread 0; pure ()) isException (fun _ => raise .value)
